@@ -3,6 +3,7 @@ import FimVerif.Proofs.Lemmas.TopoAtomicDetach
 import FimVerif.Proofs.Lemmas.TopoAtomicPeer
 import FimVerif.Proofs.Lemmas.TopoAtomicCompRb
 import FimVerif.Model.TopoC09
+import FimVerif.Proofs.Lemmas.TopoAtomicOrder
 /-!
 # C09 — a topology-building call that raises leaves the model unchanged
 
@@ -624,6 +625,122 @@ example : CoveredAll [.t (.addNode .experiment 0 ⟨"n1", none, some "RENC", som
     (stepAny (.t (.addNode .experiment 1 ⟨"n1", none, some "RENC", some "VM", []⟩))
       (stepAny (.t (.addNode .experiment 0 ⟨"n1", none, some "RENC", some "VM", []⟩)) Topo.empty).2).1 = true := by
   refine ⟨⟨fun _ => trivial, fun _ => trivial, trivial⟩, by decide⟩
+
+/-! ## write order of the building functions, read off the source (`Gen.TopoOrder.funcs`, gen/topoorder.py)
+
+Every building function of the user layer and every sliver-level add_*/remove_* function of the graph layer is either
+*single-write* - on no path does a step that can raise follow a write, so whatever raises, raises before the model is touched
+(`OrderTok.singleWrite`, Model/TopoC09.lean) - or it is listed here with the exact shape it has today and the theorem its
+atomicity rests on: the five rollback handlers (the position of every write, of the bookkeeping append `r` and of the
+handler's removals included) and the removals that delete in several passes.  A validation moved behind a creation step, a
+write added after another, an `except` narrowed, a handler that no longer re-raises or no longer removes: the table
+changes and `order_discipline` no longer holds. -/
+
+def pinnedOrder : List (String × String × String) := [
+  ("Topology._disconnect_interfaces", "loop{loop{v if{if{v w(disconnect_interface)|v}|}}}",
+    "detachAll_spec (under DetachHyp); outside it: removeNode_multipeer_counterexample"),
+  ("Topology.remove_node", "if{v|} w(_disconnect_interfaces) v w(remove_network_node_with_components_nss_cps_and_links)",
+    "atomic_removeNode"),
+  ("Topology.add_facility", "w(add_node) guarded{w(add_network_service) if{w(add_interface)|loop{w(add_interface)}}|w(remove_network_node_with_components_nss_cps_and_links) v} ret",
+    "atomic_addFacility (removeNodeGraph_fac)"),
+  ("Topology.remove_facility", "v if{v|} w(_disconnect_interfaces) v w(remove_network_node_with_components_nss_cps_and_links)",
+    "atomic_removeFacility"),
+  ("Topology.add_switch", "w(add_node) guarded{w(add_network_service) loop{v w(add_interface)}|w(remove_network_node_with_components_nss_cps_and_links) v} ret",
+    "atomic_addSwitch (removeNodeGraph_fac)"),
+  ("Topology.remove_link", "v w(remove_network_link) loop{w(remove_cp_and_links)}",
+    "atomic_removeLink"),
+  ("Topology.remove_network_service", "v w(_disconnect_interfaces) w(remove_ns_with_cps_and_links)",
+    "atomic_removeService"),
+  ("ExperimentTopology._prune_ns", "v w(_disconnect_interfaces) w(remove_ns_with_cps_and_links)",
+    "prune: differential only (a removeService without the look-up by name)"),
+  ("ExperimentTopology._prune_interface", "v w(_disconnect_interfaces) w(remove_cp_and_links)",
+    "prune: differential only"),
+  ("Node.remove_component", "v w(_disconnect_interfaces) w(remove_component_with_nss_cps_and_links)",
+    "atomic_removeComponent"),
+  ("Node.remove_network_service", "v w(_disconnect_interfaces) w(remove_ns_with_cps_and_links)",
+    "atomic_nodeRemoveService"),
+  ("Interface.remove_child_interface", "v w(_disconnect_interfaces) w(remove_cp_and_links) c",
+    "atomic_removeChildInterface"),
+  ("NetworkService.__init__", "v if{v if{v|} v w(add_network_service_sliver) c if{loop{guarded{v w(connect_interface) r|loop{w(disconnect_interface)} w(remove_ns_with_cps_and_links) if{v|} v}}|}|v if{v if{v|}|} v loop{v r} c}",
+    "atomic_addNetworkService (svcLoop_atomic: the handler undoes the service and what was connected)"),
+  ("NetworkService.connect_interface", "v if{v|} v if{v|} v w(new Interface) w(new Link) c",
+    "atomic_connectInterface (both derived names are validated before the port is created)"),
+  ("NetworkService.peer", "v guarded{w(add_interface) r w(add_interface) r w(new Link)|loop{w(remove_cp_and_links)} v} c c",
+    "atomic_peer"),
+  ("NetworkService.unpeer", "v loop{v} if{v|} w(remove_cp_and_links) w(remove_cp_and_links) c c",
+    "atomic_unpeer"),
+  ("ModelElement.rename", "v w(self.name =) w(update_node_property)",
+    "atomic_rename (the name setter validates; the second write repeats the first)"),
+  ("ABCPropertyGraph.add_network_node_sliver", "v if{v|} v w(add_node) if{loop{w(add_component_sliver)}|} if{loop{w(add_network_service_sliver)}|}",
+    "atomic_nodeNew for ns_info=None; with nested services: known finding add_node(ns_info=)"),
+  ("ABCPropertyGraph.add_network_link_sliver", "v loop{v if{v|}} v w(add_node) loop{w(add_link)}",
+    "atomic_linkNew (every endpoint is checked before the Link node is created)"),
+  ("ABCPropertyGraph.add_component_sliver", "v w(add_node) guarded{w(add_link) if{loop{w(add_network_service_sliver)}|}|w(remove_component_with_nss_cps_and_links) v}",
+    "atomic_addComponent (removeCompGraph_comp0 / removeCompGraph_comp1)"),
+  ("ABCPropertyGraph.add_network_service_sliver", "v if{v|} v w(add_node) if{w(add_link)|} if{loop{w(add_interface_sliver)}|}",
+    "atomic_addNetworkService / atomic_nodeAddService (the parent is listed by the caller first)"),
+  ("ABCPropertyGraph.add_interface_sliver", "v if{v|} v w(add_node) if{w(add_link)|} if{loop{w(add_interface_sliver)}|}",
+    "atomic_ifaceNew (the parent is looked up before the ConnectionPoint is created)"),
+  ("ABCPropertyGraph.remove_network_node_with_components_nss_cps_and_links", "v if{v|} v loop{w(remove_component_with_nss_cps_and_links)} v w(delete_node) loop{w(remove_ns_with_cps_and_links)}",
+    "removeNodeGraph_spec"),
+  ("ABCPropertyGraph.remove_component_with_nss_cps_and_links", "v if{v|} v w(delete_node) loop{w(remove_ns_with_cps_and_links)}",
+    "removeCompGraph_spec"),
+  ("ABCPropertyGraph.remove_ns_with_cps_and_links", "v if{v|} v w(delete_node) loop{w(remove_cp_and_links)}",
+    "removeNs_spec"),
+  ("ABCPropertyGraph.remove_cp_and_links", "v loop{v} loop{v loop{v}} loop{w(delete_node)}",
+    "removeCpAndLinks_spec"),
+  ("ExperimentTopology.prune", "loop{v loop{v loop{v loop{v}}}} loop{if{v loop{v}|}} loop{w(_prune_node)} loop{v if{w(_prune_components)|}} loop{v if{w(_prune_ns)|}} loop{v if{w(_prune_interface)|}}",
+    "differential only: a sequence of removals, each covered on its own")]
+
+/-- one entry of the table is in order: single-write, or exactly the pinned shape -/
+def fnOk (fn : Gen.TopoOrder.Fn) : Bool :=
+  OrderTok.singleWrite fn.toks || ((pinnedOrder.lookup fn.name).map (·.1) == some (OrderTok.render 400 fn.toks))
+
+/-- the whole table is in order, and nothing is pinned that the shape alone would settle.  Evaluated by the C09 driver on
+the table of the run (`{"op":"order"}`): a mismatch is reported with the offending functions, and the rest of the check
+still runs (a `decide` here would fail the build instead, and with it the driver). -/
+def orderOk : Bool :=
+  Gen.TopoOrder.funcs.all fnOk &&
+    pinnedOrder.all (fun p => Gen.TopoOrder.funcs.any (fun fn => fn.name == p.1 && !OrderTok.singleWrite fn.toks))
+
+/-- the entries that are not in order: (function, its shape today) -/
+def orderBad : List (String × String) :=
+  (Gen.TopoOrder.funcs.filter (fun fn => !fnOk fn)).map (fun fn => (fn.name, OrderTok.render 400 fn.toks)) ++
+    (pinnedOrder.filter (fun p => !Gen.TopoOrder.funcs.any (fun fn => fn.name == p.1 && !OrderTok.singleWrite fn.toks))).map
+      (fun p => (p.1, "pinned, but single-write (or gone) in the source"))
+
+theorem order_discipline (h : orderOk = true) : ∀ fn ∈ Gen.TopoOrder.funcs,
+    OrderTok.singleWrite fn.toks = true ∨ (pinnedOrder.lookup fn.name).map (·.1) = some (OrderTok.render 400 fn.toks) := by
+  intro fn hfn
+  unfold orderOk at h
+  rw [Bool.and_eq_true] at h
+  have := List.all_eq_true.mp h.1 fn hfn
+  unfold fnOk at this
+  rw [Bool.or_eq_true] at this
+  rcases this with h1 | h2
+  · exact .inl h1
+  · exact .inr (by simpa using h2)
+
+theorem order_pinned_minimal (h : orderOk = true) : ∀ p ∈ pinnedOrder,
+    ∃ fn ∈ Gen.TopoOrder.funcs, fn.name = p.1 ∧ OrderTok.singleWrite fn.toks = false := by
+  intro p hp
+  unfold orderOk at h
+  rw [Bool.and_eq_true] at h
+  have := List.all_eq_true.mp h.2 p hp
+  rw [List.any_eq_true] at this
+  obtain ⟨fn, hfn, hc⟩ := this
+  rw [Bool.and_eq_true] at hc
+  exact ⟨fn, hfn, by simpa using hc.1, by simpa using hc.2⟩
+
+/-- what "single-write" means, for every function of the table that is not pinned: along every path through the function
+(either branch of every `if`, any number of passes of every loop), a write is the last step that can fail - so whichever step
+raises, the model has not been touched (`OrderTok.scan_sound`; the write itself is the callee's entry, down to `atomic_addGNode`) -/
+theorem order_single_write_sound (h : orderOk = true) : ∀ fn ∈ Gen.TopoOrder.funcs, pinnedOrder.lookup fn.name = none →
+    ∀ σ e, OrderTok.Run fn.toks σ e → ∀ pre post, σ = pre ++ OrderTok.Ev.w :: post → post = [] := by
+  intro fn hfn hnp σ e hrun
+  rcases order_discipline h fn hfn with hs | hp
+  · exact OrderTok.okSeq_last_write (OrderTok.singleWrite_sound fn.toks hs σ e hrun)
+  · rw [hnp] at hp; simp at hp
 
 /-! ## the known finding behind the hypothesis `SpPeer1` of the removals
 
